@@ -85,6 +85,8 @@ func cacheGenHistory(r *Rng, g *EvGen, steps int, findsPerStep int) {
 			script = g.deletionChain()
 		} else if len(script) == 0 && r.P(2) {
 			script = g.selfDeletion()
+		} else if len(script) == 0 && r.P(2) {
+			script = g.nestedDeletion()
 		}
 		switch {
 		case len(script) > 0:
